@@ -158,8 +158,9 @@ def param_grid(rnd, quick):
         out.append(("poisson", [float(n)]))
     for a in [0.5, 0.1, 0.0011, 0.02]:
         out.append(("flory_schulz", [a]))
-    # the last three: shape parameter z = Mn / (Mw - Mn) exactly 1 (dispersity 2: k**(z-1) is 0**0 at k = 0), exactly 2, and below 1
-    for mw, mn in [(1500, 1400), (150, 100), (5000, 4000), (700, 600), (200, 150), (2000, 1000), (60, 30), (450, 300), (900, 300)]:
+    # the last one: a support of millions of integer masses (the library then takes its normalisation constant as 1);
+    # the three before it: shape parameter z = Mn / (Mw - Mn) exactly 1 (dispersity 2: k**(z-1) is 0**0 at k = 0), exactly 2, and below 1
+    for mw, mn in [(1500, 1400), (150, 100), (5000, 4000), (700, 600), (200, 150), (2000, 1000), (60, 30), (450, 300), (900, 300), (127500, 85000)]:
         out.append(("schulz_zimm", [float(mw), float(mn)]))
     if not quick:
         for _ in range(40):
